@@ -100,7 +100,7 @@ fn inner_models(tier: Tier) -> Vec<(Vec<VarDecl>, Con)> {
 }
 
 fn build_case(vars: &[VarDecl], inner: &Con, mode: Mode, status: LitStatus) -> Option<Model> {
-    if matches!(inner, Con::PredClause(..)) {
+    if matches!(inner, Con::PredClause(..) | Con::ViewClause(..)) {
         return None; // Solver::add_clause has no reified form
     }
     let mut vs = vars.to_vec();
